@@ -23,10 +23,18 @@ type c08p struct {
 	producers int
 	ib        int
 	abandoned bool // producer 1's done channel is unbuffered and nobody receives
+	// backlog > 2: producer 0 makes this many calls in a row (enough to fill the flush worker,
+	// the flush queue, the ingest actor and the ingest buffer, so that the other producers
+	// block inside IngestRows while Stop runs)
+	backlog int
 }
 
 func (p c08p) name() string {
-	return fmt.Sprintf("ctx_%s-wedge_%s-honor_%v-p%d-ib%d-abandoned_%v", p.ctx, p.wedge, p.honor, p.producers, p.ib, p.abandoned)
+	n := fmt.Sprintf("ctx_%s-wedge_%s-honor_%v-p%d-ib%d-abandoned_%v", p.ctx, p.wedge, p.honor, p.producers, p.ib, p.abandoned)
+	if p.backlog > 2 {
+		n += fmt.Sprintf("-backlog%d", p.backlog)
+	}
+	return n
 }
 
 // customCtx is a context implementation the engine knows nothing about: Done closes when
@@ -116,6 +124,13 @@ func c08Root(p c08p) func() {
 			r1 := produce(fmt.Sprintf("P%da", i), p.abandoned && i == 0)
 			r2 := produce(fmt.Sprintf("P%db", i), false)
 			recs = append(recs, r1, r2)
+			var more []*rec
+			if i == 0 {
+				for k := 2; k < p.backlog; k++ {
+					more = append(more, produce(fmt.Sprintf("P%d%c", i, 'a'+k), false))
+				}
+				recs = append(recs, more...)
+			}
 			wg.Add(1)
 			two := i == 0
 			go func() {
@@ -125,6 +140,14 @@ func c08Root(p c08p) func() {
 					e2 := call(r2)
 					if errors.Is(e1, bs.ErrEngineStopped) && !errors.Is(e2, bs.ErrEngineStopped) {
 						vapi.Fail("C08: IngestRows returned ErrEngineStopped and a later call by the same caller returned %v", e2)
+					}
+					prev := e2
+					for _, r := range more {
+						e := call(r)
+						if errors.Is(prev, bs.ErrEngineStopped) && !errors.Is(e, bs.ErrEngineStopped) {
+							vapi.Fail("C08: IngestRows returned ErrEngineStopped and a later call by the same caller returned %v", e)
+						}
+						prev = e
 					}
 				}
 			}()
@@ -247,11 +270,13 @@ func init() {
 		var ps []c08p
 		if tier == "quick" {
 			ps = []c08p{
-				{"bg", "", false, 2, 1, false},
-				{"deadline", "CreateFile", false, 2, 1, false},
-				{"deadline", "Update", true, 2, 1, false},
-				{"expired", "CreateFile", false, 2, 2, false},
-				{"deadline", "", false, 2, 1, true},
+				{"bg", "", false, 2, 1, false, 0},
+				{"deadline", "CreateFile", false, 2, 1, false, 0},
+				{"deadline", "Update", true, 2, 1, false, 0},
+				{"expired", "CreateFile", false, 2, 2, false, 0},
+				{"deadline", "", false, 2, 1, true, 0},
+				// a saturated pipeline: callers blocked inside IngestRows when Stop begins
+				{"deadline", "CreateFile", false, 2, 1, false, 4},
 			}
 		} else {
 			for _, c := range []string{"bg", "deadline", "expired", "custom"} {
@@ -265,13 +290,17 @@ func init() {
 						}
 						for _, np := range []int{2, 3} {
 							for _, ib := range []int{1, 2} {
-								ps = append(ps, c08p{c, w, honor, np, ib, false})
+								ps = append(ps, c08p{c, w, honor, np, ib, false, 0})
 							}
 						}
 					}
 				}
 				if c != "bg" {
-					ps = append(ps, c08p{c, "", false, 2, 1, true}, c08p{c, "CreateFile", false, 2, 1, true})
+					ps = append(ps, c08p{c, "", false, 2, 1, true, 0}, c08p{c, "CreateFile", false, 2, 1, true, 0})
+					for _, bl := range []int{4, 5} {
+						ps = append(ps, c08p{c, "CreateFile", false, 2, 1, false, bl}, c08p{c, "Update", true, 2, 1, false, bl},
+							c08p{c, "", false, 2, 1, true, bl}, c08p{c, "CreateFile", false, 3, 1, false, bl})
+					}
 				}
 			}
 		}
